@@ -7,8 +7,9 @@ Open Scope string_scope.
 (* For EVERY host (lstat oracle), every initial OCI spec with unique device paths and mount destinations and every valid
    (loaded) edit list: Apply never dereferences a nil entry, succeeds exactly when every device node can be completed
    from the host node, and then the resulting spec satisfies the whole declarative postcondition of ApplySpec.v
-   (devices_post, cgroup_post, mounts_post, hooks_post, gids_post, rdt_post, uid/gid/rest unchanged), and — outside the
-   class of known finding C03/env-existing-name — env_post. *)
+   (devices_post, cgroup_post, mounts_post, hooks_post, gids_post, rdt_post, uid/gid/rest unchanged) including env_post:
+   every variable named by the edits is defined exactly once, with the value of its last edit, all other entries keep their
+   value and order. *)
 Theorem C03_apply_meets_spec : forall host e o,
   wf_initial o = true -> valid_edits e = true ->
   let r := apply host e o in
@@ -16,20 +17,21 @@ Theorem C03_apply_meets_spec : forall host e o,
   (snd r = 0 <-> exists devs, all_some (map (expected_dev host (o_uid o) (o_gid o)) (somes (e_nodes e))) = Some devs) /\
   (snd r = 0 ->
      apply_post_but_env host e o (fst r) = true /\
-     (env_known_class (o_env o) (e_env e) = false -> env_post (o_env o) (e_env e) (o_env (fst r)) = true)).
+     env_post (o_env o) (e_env e) (o_env (fst r)) = true).
 Proof. exact apply_meets_spec. Qed.
 Print Assumptions C03_apply_meets_spec.
 
-(* the environment postcondition for every initial environment and edit list outside the known-finding class ... *)
-Theorem C03_env_post : forall init entries,
-  env_known_class init entries = false -> env_post init entries (add_multiple_env init entries) = true.
+(* the environment postcondition for EVERY initial environment (existing definitions of the variables, duplicates, entries
+   without '=') and every edit list ... *)
+Theorem C03_env_post : forall init entries, env_post init entries (add_multiple_env init entries) = true.
 Proof. exact env_post_holds. Qed.
 Print Assumptions C03_env_post.
-(* ... and its failure inside the class (the dependency's defect, known finding C03/env-existing-name) *)
-Theorem C03_env_post_refuted : exists init entries,
-  env_known_class init entries = true /\ env_post init entries (add_multiple_env init entries) = false.
-Proof. exact env_post_refuted. Qed.
-Print Assumptions C03_env_post_refuted.
+(* ... which the generator of the dependency alone does not give (its cache of the initial env is keyed by whole entries, so a
+   variable the OCI env already defines is appended a second time): the reason for dropEnv in Apply, repaired defect D19 *)
+Theorem C03_generator_alone_refuted : exists init entries,
+  env_known_class init entries = true /\ env_post init entries (gen_add_multiple_env init entries) = false.
+Proof. exact gen_env_post_refuted. Qed.
+Print Assumptions C03_generator_alone_refuted.
 
 (* mounts: the result is ordered by destination depth and keeps, for every depth, the previous relative order; these two
    facts determine the list, so it is the result of ANY stable sort (no model of Go's sort.Stable is needed) *)
@@ -75,7 +77,7 @@ Print Assumptions C03_frame.
 (* non-vacuity: a populated spec and an edit list with repeated paths, destinations and variable names *)
 Definition ex_host : hostfn := host_of [("/dev/a", ("c", 10, 1)%Z); ("/dev/b", ("b", 8, 0)%Z)].
 Definition ex_oci : oci :=
-  mkOci ["PATH=/bin"] 1000 1000 [5%Z]
+  mkOci ["PATH=/bin"; "A=0"; "TERM"; "A=00"] 1000 1000 [5%Z]
         [mkOciMount "/a/b" "bind" "/x" [] ""; mkOciMount "/a" "bind" "/y" [] ""] empty_hooks
         [mkOciDev "/dev/a" "c" 1 1 None None None] [] None "rest".
 Definition ex_edits : edits :=
@@ -86,9 +88,9 @@ Definition ex_edits : edits :=
           [Some (mkMount "/h1" "/a/b" [] ""); Some (mkMount "/h2" "/" [] ""); Some (mkMount "/h3" "/a/b" [] "")]
           (Some (mkRdt "c" "" "" false false)) [0%Z; 5%Z; 6%Z; 6%Z].
 Example C03_hypotheses_satisfiable :
-  wf_initial ex_oci = true /\ valid_edits ex_edits = true /\ env_known_class (o_env ex_oci) (e_env ex_edits) = false /\
+  wf_initial ex_oci = true /\ valid_edits ex_edits = true /\
   snd (apply ex_host ex_edits ex_oci) = 0 /\
-  o_env (fst (apply ex_host ex_edits ex_oci)) = ["PATH=/bin"; "A=3"; "B=2"] /\
+  o_env (fst (apply ex_host ex_edits ex_oci)) = ["PATH=/bin"; "TERM"; "A=3"; "B=2"] /\
   map om_dest (o_mounts (fst (apply ex_host ex_edits ex_oci))) = ["/a"; "/"; "/a/b"] /\
   o_gids (fst (apply ex_host ex_edits ex_oci)) = [5%Z; 6%Z].
 Proof. vm_compute. repeat split; reflexivity. Qed.
